@@ -31,6 +31,8 @@ pub fn gen_cov_case(rng: &mut Rng, tier: &str, prop: &str) -> Case {
             tab_desc_pct: 0,
             utf8_id_pct: 0,
             dup_id_pct: 0,
+            mega_1_in: 0,
+            twin_mega_1_in: 30000,
     };
     let records = g.gen(rng);
     let container = gen_container(rng, &records, false, true);
